@@ -784,6 +784,11 @@ class _ColorConfColorDescr:
                 self.fg_color = parent.fg_color
             if self.bg_color == "":
                 self.bg_color = parent.bg_color
+            # "-" means 'system color' also when the rest is inherited
+            if self.fg_color == "-":
+                self.fg_color = None
+            if self.bg_color == "-":
+                self.bg_color = None
             self.modifiers = {**parent.modifiers, **self.modifiers}
         else:
             assert parent is None
